@@ -10,8 +10,9 @@ Q_TEST = "quote! { assert_eq!( unsafe { ::#prefix::ptr::addr_of!((*ptr).#field_n
 UNIT = {
     "name": "layout_tests",
     "env": [os.path.join(ENV, "layout_tests_env.rs")],
-    "declared_trusted": {r"external_body": 44},
+    "declared_trusted": {r"external_body": 41},
     "items": [
+        {"kind": "options_bools", "extra": ["pub rust_features: RustFeatures"]},
         # (1) per-member generator: "an assertion of the offset of every named non-bit-field member",
         #     "every asserted number equals what the C/C++ compiler computes" (clang's bit offset / 8)
         {"kind": "fn", "file": CG, "name": "field_offset_check", "impl": CI, "ret": "r",
@@ -27,6 +28,8 @@ UNIT = {
          "ensures": [
              "(match *field { Field::DataMember(d) => d.s_name().is_some() && d.s_offset().is_some(), _ => false }) == r.is_some()",
              "r.is_some() ==> (match *field { Field::DataMember(d) => asserts_offset(r.unwrap()) == Some((ident_of(d.s_name().unwrap()), d.s_offset().unwrap() as int / 8)), _ => false })",
+             # C14: the `offset_of!` spelling only in the compile-time form (whose flag is the offset_of feature: unit gates)
+             "r.is_some() && uses_offset_of_macro(r.unwrap()) ==> compile_time",
          ]},
         # (2) the block: size + alignment + member assertions, only with layout tests on
         {"kind": "fn", "file": CG, "name": "layout_assertions", "impl": CI, "ret": "r_unit",
@@ -36,7 +39,6 @@ UNIT = {
                      "signature": "fn layout_assertions(self_: &CompInfo, ctx: &BindgenContext, layout: Option<Layout>, is_opaque: bool, packed: bool, is_union: bool, zero_sized: bool, forward_decl: bool, canonical_ident: &Tok, result: &mut CodegenResult)",
                      "prefix": "{", "suffix": "}"},
          "subst": [
-             ("ctx.options().layout_tests", "ctx.options().layout_tests()", 0, "R5 field read (if present)"),
              ('let fn_name = format!("bindgen_test_layout_{canonical_ident}"); Some(ctx.rust_ident_raw(fn_name))', "Some(ctx.rust_ident_raw(msg1(canonical_ident)))", 1, "R4"),
              ("quote! { ::#prefix::mem::size_of::<#canonical_ident>() }", "q_size_of_expr(&prefix, canonical_ident)", 1, "R4"),
              ("quote! { ::#prefix::mem::align_of::<#canonical_ident>() }", "q_align_of_expr(&prefix, canonical_ident)", 1, "R4"),
@@ -67,7 +69,6 @@ UNIT = {
          "r2_spec_form": [("item.is_enabled_for_codegen(ctx)", "item.s_enabled(ctx)")],
          "subst": [
              ("result: &mut CodegenResult<'_>", "result: &mut CodegenResult", 1, "R12 lifetime"),
-             ("ctx.options().layout_tests", "ctx.options().layout_tests()", 0, "R5 field read (if present)"),
              (('let mut fn_name = format!("__bindgen_test_layout_{name}_instantiation");', "Some(ctx.rust_ident_raw(fn_name))"), "Some(instantiation_test_name(ctx, result, &name))", 1, "R4"),
              ("quote! { ::#prefix::mem::size_of::<#ident>() }", "q_size_of_expr(&prefix, &ident)", 1, "R4"),
              ("quote! { ::#prefix::mem::align_of::<#ident>() }", "q_align_of_expr(&prefix, &ident)", 1, "R4"),
